@@ -241,6 +241,8 @@ pub fn exec(inp: &[u128]) -> (Vec<u128>, String, String) {
         w.settle().await;
         let mut out = Vec::new();
         let mut sigs: Vec<&'static str> = Vec::new();
+        let mut empty_batch_pending = false;
+        let mut c08: Option<String> = None;
         let mut i = 0;
         while i + 1 < ops.len() {
             let code = ops[i];
@@ -402,6 +404,13 @@ pub fn exec(inp: &[u128]) -> (Vec<u128>, String, String) {
                                 MultiplexMsg::Goodbye => "p:goodbye",
                                 _ => "p:other",
                             });
+                            // C08: a port batch without ports costs no credits; if it is queued, a peer can make the
+                            // endpoint buffer without bound.  It must end the connection.
+                            if let MultiplexMsg::PortData { ports, .. } = &m {
+                                if ports.is_empty() {
+                                    empty_batch_pending = true;
+                                }
+                            }
                             w.inject(&m, *paylen as usize);
                         }
                     }
@@ -410,6 +419,12 @@ pub fn exec(inp: &[u128]) -> (Vec<u128>, String, String) {
             }
             w.settle().await;
             out.extend(w.observe());
+            if empty_batch_pending {
+                empty_batch_pending = false;
+                if w.status == 0 && c08.is_none() {
+                    c08 = Some("FAIL: C08 a port batch with no ports (which costs no flow credits) was accepted: the peer can make the endpoint queue such frames without bound".to_string());
+                }
+            }
             if let Some(idx) = this_req {
                 let r = w.connect_results.lock().unwrap()[idx];
                 out.push(match r {
@@ -428,6 +443,9 @@ pub fn exec(inp: &[u128]) -> (Vec<u128>, String, String) {
         }
         let mut oracle = "ok".to_string();
         if let Some(c) = &w.c09 {
+            oracle = c.clone();
+        }
+        if let Some(c) = &c08 {
             oracle = c.clone();
         }
         if w.panicked {
